@@ -751,7 +751,7 @@ def run(ctx):
     alter_trees = [tk for tk in trees if all(l[0] % 2 == 0 for l in leaves_of(tk[0]))]
     rng.shuffle(alter_trees)
     alter_trees.sort(key=lambda tk: len(leaves_of(tk[0])) % 4)   # mix sizes
-    budget = ctx.n(8, 160)
+    budget = ctx.n(8, 100)
     specs = []
     for spec, k in alter_trees:
         ls = leaves_of(spec)
